@@ -439,8 +439,13 @@ func genC18(r *rng, thorough bool, emit func(FlowScenario)) {
 	// batch nodes: sizes 0..3 x concurrency 0..2 x post action, directly and as a routed step
 	for size := 0; size <= 3; size++ {
 		for conc := 0; conc <= 2; conc++ {
-			for _, post := range []string{"=", "=default", "=custom", "= "} {
+			// … and a post that FAILS with an "empty" error value and no action (the library's own empty aggregate, a nil pointer of
+			// it, a typed-nil error): a failure — not a success with the empty action
+			for _, post := range []string{"=", "=default", "=custom", "= ", "!21", "!24", "!15"} {
 				for _, shape := range []string{"results", "anys", "typed", "nil", "single"} {
+					if strings.HasPrefix(post, "!") && (size+conc)%2 == 1 {
+						continue
+					}
 					if (shape == "nil") != (size == 0) && shape != "results" && shape != "anys" {
 						continue
 					}
